@@ -1071,8 +1071,55 @@ func c14BigDecimalCases(emit func(f float64, dec int)) {
 	}
 }
 
+// c14HundredsCases: 100 <= |f| < 1000 with prec 0..2 (the "d.d" + exponent 2 layout repaired by bb4d2f1), both signs,
+// empty destination and destinations ending in '.'.
+func c14HundredsCases(emit func(f float64, prec int, pre []byte)) {
+	vals := []float64{100, 101, 109, 110, 111, 119, 120, 123, 125, 150, 155, 199, 200, 250, 499, 500, 511, 512, 513, 550, 599.5, 600, 900, 909, 990, 998, 999, 999.4, 999.9995, 123.456, 100.5, 101.99}
+	for _, f := range vals {
+		for p := 0; p <= 2; p++ {
+			for _, pre := range [][]byte{nil, []byte("."), []byte("1."), []byte("x..")} {
+				emit(f, p, pre)
+				emit(-f, p, pre)
+			}
+		}
+	}
+	for k := 100; k < 1000; k += 7 {
+		emit(float64(k), 1, []byte("."))
+		emit(-float64(k)-0.25, 2, []byte("0."))
+	}
+}
+
+// c14OverestimateCases: for every decade 10^m the floats in [2^n, 10^m) (n = floor(m*log2(10))) where float64exp's
+// estimate is one too large (repaired by 4092954): both ends, the middle, and the power of ten itself.
+func c14OverestimateCases(emit func(f float64)) {
+	for m := -307; m <= 308; m++ {
+		p10, _ := gostrconv.ParseFloat(fmt.Sprintf("1e%d", m), 64)
+		n := int(math.Floor(float64(m) * math.Log2(10)))
+		lo := math.Ldexp(1, n)
+		if lo >= p10 {
+			lo = math.Ldexp(1, n-1)
+		}
+		emit(lo)
+		emit(math.Nextafter(p10, 0))
+		emit((lo + p10) / 2)
+		emit(p10)
+		emit(math.Nextafter(lo, 0))
+	}
+}
+
 func c14AppendFloatGen(fn string, lo, hi int) func(r *Rng, tier string, emit func(Case)) {
 	return func(r *Rng, tier string, emit func(Case)) {
+		if fn == "sc_appendfloat" {
+			c14HundredsCases(func(f float64, p int, pre []byte) { emit(c14FloatCase(fn, f, p, pre, bytes.Repeat([]byte{'.'}, 12))) })
+			k := 0
+			c14OverestimateCases(func(f float64) {
+				for _, p := range []int{0, 1, 2, 16, 17, 3 + k%13} {
+					emit(c14FloatCase(fn, f, p, nil, nil))
+				}
+				emit(c14FloatCase(fn, -f, k%19-1, []byte("x."), nil))
+				k++
+			})
+		}
 		c14BigDecimalCases(func(f float64, dec int) { emit(c14FloatCase(fn, f, dec, nil, nil)) })
 		for i, f := range c14FloatValues {
 			if fn == "sc_appenddecimal" && math.Abs(f) >= 1e25 && !math.IsInf(f, 0) {
@@ -1640,24 +1687,32 @@ func c14AppendOracle(r *Rng, tier string, rep *Report) {
 		}
 		if diff.Cmp(hi) >= 0 || diff.Cmp(lo) < 0 {
 			if class == "" {
-				// classify by cause, each verified on this very output so that nothing else hides behind the class
+				// |f| is one of the three doubles around a power of ten 10^m: the comparison f < math.Pow10(exp10) and the
+				// scaling f*10^prec are then decided by the rounding of 10^m itself; verified on this output: at most one
+				// significant digit is lost
 				hi10 := new(big.Float).SetPrec(400).Add(new(big.Float).SetPrec(400).Mul(unit, big.NewFloat(10)), slack)
-				v100 := new(big.Float).SetPrec(400).Mul(v, big.NewFloat(100))
-				d100 := new(big.Float).SetPrec(400).Sub(c14BigF(a), v100)
-				switch {
-				case 100 <= a && a < 1000 && len(txt) == 5 && txt[1] == '.' && txt[3] == '0' && txt[4] == '0' && d100.Cmp(hi10) < 0 && d100.Cmp(lo) >= 0:
-					class = "hundreds" // 100 <= |f| < 1000: "d.d" followed by the two zeros meant for an integer mantissa
-				case over && diff.Cmp(hi10) < 0 && diff.Cmp(lo) >= 0:
-					class = "exp-overestimate" // one significant digit fewer than requested, otherwise right
+				for _, m := range []int{e10, e10 + 1} {
+					cr, _ := gostrconv.ParseFloat(fmt.Sprintf("1e%d", m), 64)
+					if a >= math.Nextafter(cr, 0) && a <= math.Nextafter(cr, math.Inf(1)) && diff.Cmp(hi10) < 0 && diff.Cmp(lo) >= 0 {
+						class = "pow10-boundary"
+					}
 				}
 			}
 			dd, _ := new(big.Float).Quo(diff, unit).Float64()
 			bad("value", fmt.Sprintf("AppendFloat(%v, %d) = %q: the argument minus the result is %.4g units of the last requested significant digit (truncation allows [0,1))", f, prec, body, dd))
 		}
 	}
+	checkFloat(1e23, 3, nil, nil) // first witness of the pow10-boundary class
 	checkFloat(123, 1, nil, nil)
 	checkFloat(9.56, 2, nil, nil)
 	checkFloat(0.5, 0, nil, nil)
+	c14HundredsCases(func(f float64, p int, pre []byte) { checkFloat(f, p, pre, bytes.Repeat([]byte{'.'}, 12)) })
+	c14OverestimateCases(func(f float64) {
+		for p := 0; p <= 17; p++ {
+			checkFloat(f, p, nil, nil)
+		}
+		checkFloat(-f, -1, []byte("x."), nil)
+	})
 	c14BigDecimalCases(func(f float64, dec int) {
 		checkDecimal(f, dec, nil, nil)
 		checkDecimal(f, dec, []byte("ab"), bytes.Repeat([]byte{'0'}, 40))
